@@ -34,7 +34,7 @@ type Op struct {
 	Gid  int    `json:"gid,omitempty"`
 	Hint string `json:"hint,omitempty"` // reference side only: name chosen by the system under test
 	Skip int    `json:"skip,omitempty"` // WalkDir: visit index at which the callback interferes (1-based)
-	Act  int    `json:"act,omitempty"`  // WalkDir: 1 SkipDir, 2 SkipAll, 3 error
+	Act  int    `json:"act,omitempty"`  // WalkDir: 1 SkipDir, 2 SkipAll, 3 error at visit Skip; 4 the reported error, 5 SkipDir, 6 SkipAll on a visit that reports an error
 }
 
 func (o Op) String() string {
@@ -848,8 +848,15 @@ func (e *Env) walk(op Op) Result {
 			}
 		}
 
-		if err != nil && op.Act == 4 {
-			return err
+		if err != nil {
+			switch op.Act {
+			case 4:
+				return err
+			case 5:
+				return fs.SkipDir
+			case 6:
+				return fs.SkipAll
+			}
 		}
 
 		return nil
